@@ -490,6 +490,37 @@ func variants() []variant {
 	}
 	weight("weight-4000000", false, 4000000)
 	weight("weight-4000004", true, 4000004)
+	// witness bytes weigh one unit each: with one (two) witness transactions next to the coinbase's
+	// witness the weight is 1 (2) modulo 4, which reaches the limit's immediate neighbours
+	weightW := func(name string, bad bool, target, nWit int) {
+		t := tag()
+		add(name, bad, func(c *ctx) bool { return c.has("M7") && c.has("W1") && c.flags.Witness && c.p.Height < 200 }, func(c *ctx) *reftx.Block {
+			s := c.spec(t)
+			big := sp([]OP{c.p.Named["M7"]}, []reftx.Out{{Value: 5e8, Script: bytes.Repeat([]byte{0x51}, 990000)}})
+			s.Txs = []*reftx.Tx{big}
+			for i := 0; i < nWit; i++ {
+				tx := sp([]OP{c.p.Named[fmt.Sprint("W", i)]}, []reftx.Out{o1(5e8)})
+				tx.In[0].Witness = [][]byte{{0x51}}
+				s.Txs = append(s.Txs, tx)
+			}
+			s.Witness = true
+			b := minichain.Build(s)
+			d := target - b.Weight()
+			if d%4 != 0 {
+				ev.HarnessError("weight variant %s: cannot reach %d from %d", name, target, b.Weight())
+			}
+			big.Out[0].Script = bytes.Repeat([]byte{0x51}, len(big.Out[0].Script)+d/4)
+			b = minichain.Build(s) // the commitment covers the witness txids only, but rebuild to keep everything consistent
+			if b.Weight() != target {
+				ev.HarnessError("weight variant %s: got %d want %d", name, b.Weight(), target)
+			}
+			return b
+		})
+	}
+	weightW("weight-3999997-one-witness-tx", false, 3999997, 1)
+	weightW("weight-4000001-one-witness-tx", true, 4000001, 1)
+	weightW("weight-3999998-two-witness-txs", false, 3999998, 2)
+	weightW("weight-4000002-two-witness-txs", true, 4000002, 2)
 	return vs
 }
 
